@@ -92,7 +92,9 @@ GAPS = {
 }
 CLOCKS = [946684799.0, 946684800.0, 1709164800.0, 1e9, 1735689599.0,
           1743379200.0, 1706745600.0, 1711843200.0]
-TZINFOS_NAMES = ["BRST", "XYZT", "QWE", "ZZ"]
+# (AT, ON, AND, ST are also "jump" words of the parser's vocabulary: as keys
+# of tzinfos they are zone names all the same, fuzzy or not)
+TZINFOS_NAMES = ["BRST", "XYZT", "QWE", "ZZ", "AT", "ON", "AND", "ST"]
 UNKNOWN_NAMES = ["QQQ", "ABCDE", "JJT"]
 # vetted filler: no digits, no parser vocabulary (months, weekdays, h/m/s
 # words, am/pm incl. the article "a"), and no all-capitals word of five
